@@ -37,6 +37,7 @@ func hDispatcher14(route *Route) *Dispatcher {
 //vf:quick unwind=12 decisions=300 paths=200000 preempt=1 goroutines=8
 //vf:thorough unwind=12 decisions=400 paths=2000000 preempt=2 goroutines=10
 //vf:expect reach=quiescent
+//vf:twin
 //vf:note concurrent exploration in the engine; native replay is a linearised twin (routeAlert calls executed sequentially in the engine's commit order)
 func VerifC14_Order() {
 	gw := model.Duration(100 * time.Hour)
